@@ -8,21 +8,63 @@ TB = ("Trusted: Lean 4.33 kernel; axioms propext/Classical.choice/Quot.sound onl
       "the hand-written model is tied to /repo by the differential correspondence run (Rust harness + Lean driver + Python comparison), "
       "so behaviour the generators do not reach is not tied. ")
 
+CORR = ("differential correspondence: the same generated cases (VERIF_SEED) run on the real crates (in-process Rust harness, rebuilt from /repo's working tree) "
+        "and on the Lean model (compiled driver); property-specific projection compared; executable property oracle evaluated on the real crates' observations; "
+        "ddmin shrinking; known findings matched by pattern. ")
+
+def C(text, note, technique, design):
+    return dict(text=text, note=TB + note, technique=technique, design=design)
+
 CLAIMS = {
- "C10": dict(
-   text="Lean theorems about the executable model of graph/src/lib.rs (all op sequences: invariant by induction) + differential correspondence of every op result/rank/edge set against pie_graph::DAG on generated and exhaustively enumerated small-scope op sequences, + independent edge-set oracle on the real crate.",
-   note=TB + "slotmap/hashlink/HashMap modelled as fresh ids/ordered lists/assoc lists; u32 ranks as Nat.",
-   technique="Lean 4 invariant proof over a hand-written model + differential correspondence", design="§5 C10"),
- "C11": dict(
-   text="Lean theorems relating every query of the model to its edge set + differential comparison of the complete public query surface after every operation against pie_graph::DAG, + independent edge-set specification oracle (first-insertion order, data, reachability, removal exactness).",
-   note=TB + "Defect F1 (re-added edge moved to back) found by this check and repaired (fix: commit 9236258).",
-   technique="Lean 4 refinement lemmas over a hand-written model + differential correspondence", design="§5 C11"),
+ "C01": C("Lean: soundness of top-down validation/execution w.r.t. a denotational evaluator for write-free programs over all histories (Faithful store invariant); local theorems for programs with writes. " + CORR + "Oracle: every session's outputs and resource contents equal a from-scratch build run on the real crates.",
+          "Full statement for programs with writes is stated, proved only in parts (see evidence stated_not_proved).", "Lean 4 invariant/refinement proof over hand-written model + differential correspondence + clean-build oracle", "§5 C01"),
+ "C02": C("Lean: once-per-session, justification of every execution, idempotence, validation in creation order. " + CORR + "Oracle: <=1 execution per task per session, every execution preceded by its first require or a failed dependency check, nothing executes on an unchanged re-require, validation order = recorded creation order, exact-checker executions are a subset of the from-scratch build's.",
+          "minimality clause proved for write-free programs.", "Lean 4 proof over hand-written model + differential correspondence", "§5 C02"),
+ "C03": C("Lean: bottom-up scheduling lemmas and the closure invariant under Reported and ShallowReq. " + CORR + "Oracle: after update_affected_tasks, requiring every known task executes nothing and returns from-scratch outputs. Known finding K1 (partial top-down session before the bottom-up build) recorded.",
+          "C03_statement partial; K1 is a genuine defect recorded in known_findings.json.", "Lean 4 proof over hand-written model + differential correspondence", "§5 C03"),
+ "C04": C("Lean: the queue as a pure data structure for unbounded contents (pop returns the greatest rank, popped task has no queued dependency, pop_least spec, swap_remove harmless, drain order). " + CORR + "Oracle: every bottom-up execution is scheduled or newly required, at most once, never before a scheduled dependency.",
+          "at-most-once is covered by the oracle and the correspondence, not yet by a theorem.", "Lean 4 proof (queue + rank order) + differential correspondence", "§5 C04"),
+ "C05": C("Lean: exact characterisation of when read/write/written_to abort with a hidden dependency, abort-before-modification for Context::write. " + CORR + "Oracle: every reader of a generated resource reaches its writer in the store dump of every build that returned; content unchanged at an aborted write. Known finding K4 (dependency erosion) recorded.",
+          "global clause false on the real code (K4).", "Lean 4 proof of the detection logic + differential correspondence", "§5 C05"),
+ "C06": C("Lean: overlap abort exactly when a writer is recorded, before the resource is modified. " + CORR + "Oracle: <=1 writer per resource in every store dump, content unchanged at abort, well-formed programs never report an overlap.",
+          "", "Lean 4 proof of the detection logic + differential correspondence", "§5 C06"),
+ "C07": C("Lean: cycle criterion of add_edge (C10) lifted to require; " + CORR + "Oracle: statically cyclic programs abort with a cyclic-dependency error, no task is entered twice, no stack overflow/timeout.",
+          "", "Lean 4 proof + differential correspondence", "§5 C07"),
+ "C08": C("Lean: graph frame lemmas (C11) give recorded = performed dependency operations. " + CORR + "Oracle: store dump (hook) of every executed task equals the dependency operations of its latest execution. Known finding K2 (several checkers on one target) recorded.",
+          "needs OneChecker; K2 otherwise.", "Lean 4 proof + differential correspondence on the store dump", "§5 C08"),
+ "C09": C("Lean: stamp provenance (reader content / content after the write / returned output) and verdict = own checker on own stamp, for arbitrary checker semantics. " + CORR + "Instrumented harness checkers.",
+          "", "Lean 4 decision-logic theorems + differential correspondence", "§5 C09"),
+ "C10": C("Lean: Dag.Inv is preserved by every operation (induction over all op sequences): ranks a bijection onto 1..n, every edge upward, acyclic; add_edge reports a cycle iff dst reaches src or src = dst; rejected insertion leaves the graph unchanged; DFS fuel proved sufficient. " + CORR + "Exhaustive small-scope op sequences; independent edge-set oracle.",
+          "slotmap/hashlink/HashMap modelled as fresh ids/ordered lists/assoc lists; u32 ranks as Nat.", "Lean 4 invariant proof (Pearce-Kelly) + differential correspondence", "§5 C10"),
+ "C11": C("Lean: frame lemmas of every mutating operation, queries agree with the edge set, refinement to an edge-set specification. " + CORR + "Complete public query surface compared after every operation; independent first-insertion-order oracle. Defect F1 found and repaired.",
+          "", "Lean 4 refinement proof + differential correspondence", "§5 C11"),
+ "C12": C("Lean: five iff-theorems (check against the stamp of another output is consistent exactly when the documented relation holds), reflexivity, agreement of the build model's checker table with them. " + CORR + "Exhaustive over a 6-element Result domain x 5 checkers, also through OutputCheckerObj (hook).",
+          "", "Lean 4 proof + exhaustive differential table", "§5 C12"),
+ "C13": C("Lean: path-state model of the file resource: three stamping routes agree, checker iff-theorems, reader left rewound, write creates/truncates/refuses directories. " + CORR + "Real temporary files/directories with explicit mtimes. Defect F2 found and repaired.",
+          "the OS (metadata, read_dir, stale handles) and SHA-256 (assumed injective) are modelled, not verified.", "Lean 4 proof over a path-state model + differential correspondence on a real file system", "§5 C13"),
+ "C14": C("Lean: refinement of TypeToAnyMap + global map + MapWriter to per-type key->value maps: read-your-writes, isolation between key/resource types, get_or_set_default spec, checker iff, stamping routes agree. " + CORR + "Independent per-type slot-map oracle.",
+          "HashMap modelled as duplicate-free association list (MapRes.WF).", "Lean 4 refinement proof + differential correspondence", "§5 C14"),
+ "C15": C("Lean: eq_any iff same (type, value); the store shares a node iff names are equal. " + CORR + "Five task types with identical Debug/Hash (newtypes, Box/Rc/Arc) and two resource types; outputs, executions, node counts, key equality compared.",
+          "whether the Rust code keys on TypeId is established by the correspondence, the theorems are about the model.", "Lean 4 proof (thin) + differential correspondence", "§5 C15"),
+ "C16": C("Lean: the only hash-ordered iteration (the two DFS change sets) does not influence the result: reorder is invariant under permutation, addEdgeWith any enumeration = addEdge, queue pop order depends only on the set and the ranks. " + CORR + "Complete event stream compared; thorough: independent processes (fresh hash seeds).",
+          "hash-seed behaviour itself is runtime; covered by the multi-process correspondence.", "Lean 4 proof of order-independence + differential correspondence", "§5 C16"),
+ "C17": C("Lean: EventTracker stores exactly the recorded kinds since the last build_start with index = position; every helper iff its specification; composite delivers identical streams. " + CORR + "Oracle: nesting of start/end pairs, execute events = task-side log, require_end value = returned value, EventTracker contents. Defect F3 found and repaired.",
+          "trace-balance theorem over the interpreters pending (oracle covers it).", "Lean 4 proof + differential correspondence", "§5 C17"),
+ "C18": C("Lean: a checker error is reported, makes the dependency inconsistent (re-execution / scheduling), never aborts; errors = errors of the validation events. " + CORR + "Failing checkers at every position.",
+          "", "Lean 4 proof + differential correspondence", "§5 C18"),
+ "C19": C("Lean: store well-formedness at every abort point. " + CORR + "Panics injected at every operation, diagnosed violations, further sessions with the cause removed or kept; oracle: no BUG panic after an abort, results equal from-scratch results. Defect F4 found and repaired.",
+          "", "Lean 4 proof + differential correspondence", "§5 C19"),
+ "C20": C("Lean: no abort for static-role programs. " + CORR + "Role-change programs; oracle: an incremental abort implies the from-scratch build of all known tasks aborts. Known finding K3 recorded.",
+          "K3 is a genuine defect recorded in known_findings.json.", "Lean 4 proof + differential correspondence", "§5 C20"),
 }
+
+# properties whose Lean obligations are real theorems by now (the others are under construction)
+READY = ["C04", "C10", "C12", "C14", "C15", "C16", "C17"]
 
 def main():
     checks = []
     for p in ALL:
-        if p not in CLAIMS: continue
+        if p not in READY: continue
         c = CLAIMS[p]
         checks.append(dict(
             property_id=p, quick_cmd=f"./check {p} quick", thorough_cmd=f"./check {p} thorough",
@@ -35,14 +77,14 @@ def main():
         hooks=dict(guard="gohla_pie_verif (cargo feature of crate pie)",
                    enable="the harness depends on pie with features = [\"gohla_pie_verif\", \"file_hash_checker\"]",
                    baseline_off_cmd="cd /repo && cargo test --workspace --no-fail-fast --offline",
-                   source_commits=[], add_only=True),
+                   source_commits=["0dc7772", "1a52b04"], add_only=True),
         engines=[dict(name="lean-model+correspondence", path="/verif/lean, /verif/harness, /verif/tools",
-                      serves_properties=[p for p in ALL if p in CLAIMS],
+                      serves_properties=[p for p in ALL if p in READY],
                       kind_free_text="Lean 4 model + theorems (lake build, #print axioms audit); Rust harness running the same cases on the real crates; Python comparison, oracles, shrinking")],
         checks=checks,
         notes="See DESIGN.md. Violations found on the unchanged tree and repaired are listed in known_findings.json (status fixed).",
-        not_applicable=[dict(property_id=p, reason="check under construction in this session (model and correspondence not yet built); will be claimed, see DESIGN.md §5")
-                        for p in ALL if p not in CLAIMS],
+        not_applicable=[dict(property_id=p, reason="not claimed yet: the correspondence check and oracle run (./check " + p + " quick) but its Lean property theorems are still being proved; it will be claimed when they are, see DESIGN.md §5")
+                        for p in ALL if p not in READY],
     )
     json.dump(m, open(os.path.join(VERIF, "MANIFEST.json"), "w"), indent=1)
 
